@@ -325,7 +325,11 @@ func genOps(r *vh.Rng, uc *unitCase) {
 		var o codec.VerifReadOp
 		for {
 			o = codec.VerifReadOp{}
-			if jsonish {
+			if recording && r.Chance(1, 3) { // close recordings often: what was recorded is the observable
+				o.Kind = 14
+			} else if !recording && nread > 0 && r.Chance(1, 8) {
+				o.Kind = 13
+			} else if jsonish {
 				o.Kind = r.PickInt(0, 5, 7, 9, 9, 10, 10, 11, 11, 12, 12, 13, 14, 2, 3)
 			} else {
 				o.Kind = r.PickInt(0, 0, 1, 2, 3, 4, 5, 5, 6, 6, 7, 7, 8, 8, 8, 9, 10, 11, 12, 13, 14, 14)
